@@ -17,6 +17,7 @@ import Driver.C16
 import Driver.C18
 import Driver.C12
 import Driver.C19
+import Driver.C06
 /-
   Line-protocol driver: one operation per input line, one canonical output line per operation.
   Imports `Model/` only (no Mathlib, no proofs) so that it links as a `lean_exe`.
@@ -32,6 +33,7 @@ structure DState where
   errs : Amqp.Errors.C := {}
   cons : Amqp.Consumers.S := {}
   deliv : Amqp.Deliver.S := {}
+  transp : Amqp.Transport.T := {}
 
 def handlers : List Handler := [
   Driver.C04.handle,
@@ -69,6 +71,9 @@ def step (st : DState) (line : String) : DState × String :=
   | none =>
   match Driver.C03.stepCmd st.deliv args with
   | some (d, o) => ({ st with deliv := d }, o)
+  | none =>
+  match Driver.C06.stepCmd st.transp args with
+  | some (d, o) => ({ st with transp := d }, o)
   | none =>
     match handlers.findSome? (fun h => h args) with
     | some o => (st, o)
